@@ -60,6 +60,12 @@ class _VSelector:
             return events
         if timeout is None:
             raise Deadlock("asyncio loop has nothing to wait for")
+        if timeout >= 3600 * 24:
+            # asyncio caps the select timeout at one day; if the only timers left are
+            # "sleep forever" ones (when == inf) nothing can ever happen again
+            whens = [h._when for h in self._loop._scheduled if not h._cancelled]
+            if whens and min(whens) == float("inf"):
+                raise Deadlock("asyncio loop only has infinite timers left")
         if timeout > 0:
             self._loop._vnow += timeout
         return []
